@@ -82,10 +82,20 @@ theorem pepNumber_nat (n : Nat) (ys : Bytes) (hn : n < 2 ^ 63) (hy : NonNum ys) 
     cases h : natToBytes n with
     | nil => exact absurd h (natToBytes_ne_nil n)
     | cons _ _ => rfl
+  have htw : ∀ l : Bytes, (∀ c ∈ l, isDigitB c = true) → l.takeWhile isDigitB = l := by
+    intro l
+    induction l with
+    | nil => intro _; rfl
+    | cons a t ih =>
+      intro h
+      have ha : isDigitB a = true := h a (List.mem_cons_self ..)
+      simp only [List.takeWhile_cons, ha, ↓reduceIte]
+      rw [ih (fun c hc => h c (List.mem_cons_of_mem _ hc))]
+  have htw := htw (natToBytes n) hall
   have hp : parseUint63Lossy (natToBytes n) = n := by
     unfold parseUint63Lossy
-    simp only [hne, natToBytes_all_digit n, Bool.not_true, Bool.or_self, Bool.false_eq_true, ↓reduceIte,
-      digitsVal_natToBytes]
+    simp only [htw, hne, digitsVal_natToBytes, Nat.lt_irrefl, Bool.or_self, Bool.false_eq_true, ↓reduceIte,
+      decide_false]
     have : ¬ n > 2 ^ 63 - 1 := by omega
     simp [this]
   rw [hp]
